@@ -14,7 +14,7 @@ LEVEL = "exploration"
 RULE = (
     "every class in MESSAGE_CLASSES and RETURN_MESSAGE_CLASSES (introspected), fields drawn over their declared "
     "ctypes widths with boundary bias, subroutine payloads from the C01 generator, arrays of length 0..64 with arbitrary "
-    "None patterns (some of length 255..700), all ErrorCode/Signal members, at the default log level or with the library logging at DEBUG / INFO; oracle: deserialize(bytes(m)) has the same class and equal fields; histories: one message serialised, changed (in-place list edits, attribute assignment), serialised again; one byte string decoded, the result changed, decoded again. "
+    "None patterns (some of length 255..700), all ErrorCode/Signal members, at the default log level or with the library logging at DEBUG / INFO; oracle: deserialize(bytes(m)) has the same class and equal fields; histories: one message serialised, changed (in-place list edits, attribute assignment), serialised again; one byte string decoded, the result changed, decoded again; 8-bit code fields (error code, signal) with any 8-bit value, set on the object or arriving as bytes. "
     "Non-trivial = array with both defined and undefined entries, or any field at a width boundary, or a subroutine "
     "payload with >=1 instruction; distinct by (class, field values)"
 )
@@ -247,7 +247,39 @@ def st_history():
     b = st.tuples(simple, st.sampled_from(["reserialise", "redecode"])).map(
         lambda t: {"kind": "history", "cls": t[0][0], "field": t[0][1], "v0": t[0][2], "v1": t[0][3], "mode": t[1]}
     )
-    return a | b
+    # a code outside the enum the constructor takes (a newer peer may send one): set on the object, or arriving as bytes
+    c = st.tuples(st.sampled_from([("ErrorMessage", "err_code"), ("SignalMessage", "signal")]), st_int_ct(U8), st.sampled_from(["assign", "bytes"])).map(
+        lambda t: {"kind": "history", "cls": t[0][0], "field": t[0][1], "v1": t[1], "mode": "code-" + t[2]}
+    )
+    return a | b | c
+
+
+def check_code(case) -> None:
+    """an 8-bit code field holds any 8-bit value: it survives bytes -> message -> bytes and message -> bytes -> message"""
+    from netqasm.backend import messages as M
+
+    cls = getattr(M, case["cls"])
+    direction = "return" if case["cls"] == "ErrorMessage" else "host"
+    deser = M.deserialize_host_msg if direction == "host" else M.deserialize_return_msg
+    m = cls(M.ErrorCode.GENERAL) if case["cls"] == "ErrorMessage" else cls(M.Signal.STOP)
+    raw0 = bytes(m)
+    if case["mode"] == "code-assign":
+        setattr(m, case["field"], case["v1"])
+        raw = bytes(m)
+    else:
+        # the same message as it would arrive from a peer that knows more codes: only the code byte differs
+        probe = cls(M.ErrorCode.GENERAL) if case["cls"] == "ErrorMessage" else cls(M.Signal.STOP)
+        setattr(probe, case["field"], (getattr(probe, case["field"]) + 1) % 256)
+        diff = [i for i, (x, y) in enumerate(zip(raw0, bytes(probe))) if x != y]
+        if len(diff) != 1:
+            raise HarnessError(f"cannot locate the code byte of {case['cls']}")
+        raw = raw0[: diff[0]] + bytes([case["v1"]]) + raw0[diff[0] + 1 :]
+    try:
+        back = deser(raw)
+    except Exception as e:
+        raise Failure(f"history:{case['mode']}:{case['cls']}:raises", case, f"deserialising raised {type(e).__name__}: {e}")
+    if type(back) is not cls or getattr(back, case["field"]) != case["v1"] or bytes(back) != raw:
+        raise Failure(f"history:{case['mode']}:{case['cls']}", case, f"{case['field']}={case['v1']} came back as {type(back).__name__} with {case['field']}={getattr(back, case['field'], None)!r}")
 
 
 def _base_fields(case):
@@ -267,6 +299,9 @@ def _base_fields(case):
 
 def check_history(case) -> None:
     from netqasm.backend import messages as M
+
+    if case["mode"].startswith("code-"):
+        return check_code(case)
 
     direction = "return" if case["cls"] in ("ReturnArrayMessage", "MsgDoneMessage", "ReturnRegMessage") else "host"
     deser = M.deserialize_host_msg if direction == "host" else M.deserialize_return_msg
